@@ -42,6 +42,11 @@ REQUESTS = [
     ('stream_fault', 'stream', [('n', 4), ('fail_after', 2), ('how', 'fault')]),
     ('stream_exc', 'stream', [('n', 4), ('fail_after', 1), ('how', 'exc')]),
     ('stream_exc0', 'stream', [('n', 4), ('fail_after', 0), ('how', 'exc')]),
+    ('lazy', 'lazy', [('n', 4), ('fail_after', 9), ('how', '')]),
+    ('lazy_fault', 'lazy', [('n', 4), ('fail_after', 2), ('how', 'fault')]),
+    ('lazy_exc', 'lazy', [('n', 4), ('fail_after', 1), ('how', 'exc')]),
+    ('lazy_exc0', 'lazy', [('n', 4), ('fail_after', 0), ('how', 'exc')]),
+    ('lazy_always', 'lazy', [('n', 4), ('fail_after', 1), ('how', 'always')]),
     ('ded_toolong', 'dedicated', [('which', 'toolong')]),
     ('ded_notfound', 'dedicated', [('which', 'notfound')]),
     ('ded_notallowed', 'dedicated', [('which', 'notallowed')]),
@@ -118,7 +123,7 @@ def judge(res, case, r, rec, maxlen, declared, blen, full_chunks, R):
     # a body that is streamed while user code is still producing it can fail after the status line has gone out: raising
     # out of the iteration, which makes the server drop the connection, is then the one way left to say so
     midstream = (r.exc is not None and r.exc_stage == 'iterate' and len(r.sr_calls) == 1 and r.closed
-                 and case['req'] in ('stream_fault', 'stream_exc', 'gen_late_exc'))
+                 and case['req'] in ('stream_fault', 'stream_exc', 'gen_late_exc', 'lazy_fault', 'lazy_exc', 'lazy_exc0', 'stream_exc0', 'lazy_always'))
     if midstream:
         R.count('midstream_failures_seen')
     elif r.exc is not None:
